@@ -25,6 +25,7 @@ import Driver.TG
 import Driver.LK
 import Driver.Misc
 import Driver.Load
+import Driver.LoadV
 import Driver.ExText
 import Driver.ExK
 import Driver.Keys
@@ -33,6 +34,9 @@ import Driver.CK
 import Driver.C14Tok
 import Driver.E2E
 import Driver.CRules
+import Driver.C02T
+import Driver.Bridge
+import Driver.AstT
 /-!
 Line-protocol driver `jsight-model` (DESIGN.md §12). One request per line on stdin, one reply per
 line on stdout. Core Lean only: nothing imported here may import Mathlib (the executable would
@@ -233,6 +237,8 @@ def handle (line : String) : String :=
   | ["fmt", "U", hx] => if Formats.uuidOK (unhex hx) then "OK" else "ERR"
   | ["fmt", "D", hx] => if Formats.dateOK (unhex hx) then "OK" else "ERR"
   | "load" :: r => DLoad.handle (r.headD "")
+  | "astt" :: r => Drv.AstT.handle r
+  | "loadv" :: r => DLoadV.handle (r.headD "")
   | "omap" :: _ => DOMap.handle (restOf line)
   | "semn" :: _ => DSemN.handle (restOf line)
   | "sem" :: _ => DSem.handle (restOf line)
@@ -249,11 +255,13 @@ def handle (line : String) : String :=
   | "exk" :: _ => DExK.handle line
   | "e2e" :: r => DE2E.handle false r
   | "e2eo" :: r => DE2E.handle true r
+  | "c02t" :: r => DC02T.handle r
   | "tg" :: _ => DTG.handle line
   | "lk" :: _ => DLK.handle line
   | "ck" :: _ => DCK.handle (restOf line)
   | "crules" :: _ => DCR.handle line
   | "cspec" :: _ => DCR.handle line
+  | "bridge" :: r => DBridge.handle r
   | "ast" :: r => DMisc.ast r
   | "rgx" :: r => DMisc.rgx r
   | "c18r" :: r => DC18R.handle r
